@@ -64,6 +64,11 @@ func (s *Service) AggregateAttestation(ctx context.Context,
 
 				return
 			}
+			if aggregateResponse == nil || aggregateResponse.Data == nil {
+				// A response without data is not a response we can use.
+				log.Warn().Dur("elapsed", time.Since(started)).Msg("Obtained empty aggregate attestation response; ignoring")
+				return
+			}
 			aggregate := aggregateResponse.Data
 			log.Trace().Str("provider", name).Msg("Obtained aggregate attestation")
 
